@@ -25,12 +25,14 @@ FLOORS = {'quick': {'evaluations': 300, 'nontrivial': 150, 'counters': {'safety_
           'thorough': {'evaluations': 6000, 'nontrivial': 3000, 'counters': {'safety_exceptions_seen': 2000, 'innocent_accepted': 400}}}
 
 IDENTS = ['eval', 'exec', 'system', 'open', '__import__', 'getattr', 'foo_bar', 'a1', 'print', 'compile', 'x', 'os_2']
-PREFIX = ['', '', 'os.', 'run ', 'x=', '__builtins__.', '1+', '"', "it's "]
+PREFIX = ['', '', 'os.', 'run ', 'x=', '__builtins__.', '1+', '"', "it's ",
+          # brackets of the surrounding prose, closing ones before the first opening one included
+          '1) ', ':) then ', 'a) b) ', ') ', '( ', '(( ', '] ) ', 'ok :( ', 'step 2) use ', '}) ', ')))']
 ARGS = ['', '1', '1+1', 'a, b', "'ls -l'", '"rm"', 'x.y', '__name__', 'A1:B2', '1, 2, 3']
 # argument lists with bracket groups of their own: the cell has to be reported; which fragment text a (lazy or greedy) pattern cuts out of
 # it is not fixed by the statement, so only the address is judged for these
 NESTED_ARGS = ['(1+2)*3', '("ls")', '(1, 2)', 'a, (b)', '[1, (2)]', '((x))']
-SUFFIX = ['', '', ' # c', '.x', ' + 1', ';', '"']
+SUFFIX = ['', '', ' # c', '.x', ' + 1', ';', '"', ' (', ' )', ' :)', ' ((', ' ) (']
 TITLES = ['S1', 'Data_2', 'my sheet', 'Лист1', '2024', 'a.b', 'Q (1)', 'x-y', 'T']
 INNOCENT = ['SUM(A1:A3)', 'hello (world)', 'IF(A1>1, "a", "b")', 'text', 'a (b) c', 42, 3.5, True, dt.datetime(2024, 5, 1),
             '=SUM(A1:A3)', '=IF(A1>1,"a","b")', '=A1+1', '=ROUND(A1,1)', 'MAX(1, 2) and MIN(3)', '()', 'f ()', '(x)', 'A(']
